@@ -25,6 +25,7 @@ class Contract:
     ensures: dict = field(default_factory=dict)
     raises: dict = field(default_factory=dict)     # exception name -> condition text over the pre-state
     modifies: list = field(default_factory=list)   # locations: 'self.graph', 'jt', ...
+    frame_clauses: list = field(default_factory=list)  # ensures clauses that are frame equalities: callers assume them with representation equality
     hints: dict = field(default_factory=dict)      # goal clause name -> labelled hypotheses (clause names) to keep in the first attempt
     cuts: dict = field(default_factory=dict)       # statement-source prefix -> {name: expr}: intermediate assertions (proved, then assumed)
     loops: dict = field(default_factory=dict)      # loop key (header text, '#k' suffix for duplicates) -> LoopSpec
